@@ -91,11 +91,11 @@ func replayErrChain(args []string) (any, error) {
 				File string `json:"file"`
 				P    []int  `json:"p"`
 			} `json:"ops"`
-			Orig       specErr         `json:"orig"`
-			Copy       specErr         `json:"copy"`
-			HasCopy    bool            `json:"hasCopy"`
-			RenderOrig string          `json:"renderOrig"`
-			RenderCopy string          `json:"renderCopy"`
+			Orig       specErr `json:"orig"`
+			Copy       specErr `json:"copy"`
+			HasCopy    bool    `json:"hasCopy"`
+			RenderOrig string  `json:"renderOrig"`
+			RenderCopy string  `json:"renderCopy"`
 		}
 		if err := json.Unmarshal(raw, &v); err != nil {
 			return err
